@@ -293,14 +293,20 @@ func (g *G) count16() int {
 	return g.R.pick(0, 1, 1, 2, 2, 3, 15, 16, 16, 17)
 }
 
+// forceLS2Flags: when ≥ 0, the unpublished/blinded bits encLS2Body uses (the offline bit follows the transient key)
+var forceLS2Flags = -1
+
 // encLS2Body: everything before the signature.
 func (g *G) encLS2Body(id *identity, transient *signer, forge string) (body []byte, signerUsed *signer) {
 	r := g.R
 	flags := r.pick(0, 0, 0, 2, 4, 6)
+	if forceLS2Flags >= 0 {
+		flags = forceLS2Flags &^ 1
+	}
 	if transient != nil {
 		flags |= 1
 	}
-	if r.coin(0.05) && !g.valid {
+	if r.coin(0.05) && !g.valid && forceLS2Flags < 0 {
 		flags |= 8 << uint(r.intn(12)) // reserved bits
 	}
 	body = cat(id.bytes, u32(g.ts()), u16(r.pick(0, 1, 600, 65535)), u16(flags))
@@ -530,7 +536,10 @@ func genSignedStructs(g *G, count int) {
 		na := r.pick(0, 1, 1, 2, 3)
 		if riForced {
 			rb = cat(rid.bytes, u64(uint64(g.ts())*1000))
-			na = 2
+			na = []int{2, 17, 255}[i] // incl. the first count above 16 and the last the size byte can hold
+			if g.quick() && na == 255 {
+				na = 33
+			}
 		}
 		rb = append(rb, byte(na))
 		for j := 0; j < na; j++ {
